@@ -338,7 +338,7 @@ func AddSharedJobs(p *Plan) {
 	}
 }
 
-const layoutBound = "memory layout: the operators of the instance-memory table applied to the same logical operands handed over as one operand at a time as a view into a larger tensor (at an offset; with gaps along the last or the second axis; a column of a matrix) and as a lazily transposed matrix: same results as for plain operands or a refusal, never a panic, operands left as they were (all float/bool elements symbolic, exact real arithmetic); 46 (operator, operand, layout) triples for which the unchanged tree already answers differently are left out (listed in DESIGN 8.3)"
+const layoutBound = "memory layout: the operators of the instance-memory table applied to the same logical operands handed over as one operand at a time as a view into a larger tensor (at an offset; with gaps along the last or the second axis; a column of a matrix) and as a lazily transposed matrix: same results as for plain operands or a refusal, never a panic, operands left as they were (all float/bool elements symbolic, exact real arithmetic); 46 (operator, operand, layout) triples and Div for which the unchanged tree already answers differently are left out (listed in DESIGN 8.3)"
 
 // layoutSensitive: (operator, layout) pairs for which the UNCHANGED tree already answers differently than for plain
 // operands (wrong values or a panic; mostly gorgonia routines that read a view's backing array without regard to
@@ -346,6 +346,9 @@ const layoutBound = "memory layout: the operators of the instance-memory table a
 // their logical meaning and does not reproduce that behaviour, so these pairs cannot be decided here; they are
 // listed in DESIGN.md (section 8.3) as observations.
 var layoutSensitive = map[string]bool{
+	// Div: gorgonia's contiguous and iterator kernels disagree on x/0 (known finding C03.float-div-by-zero)
+	"Div:0:offset": true, "Div:0:gaps": true, "Div:0:mid": true, "Div:0:lazyT": true, "Div:0:column": true,
+	"Div:1:offset": true, "Div:1:gaps": true, "Div:1:mid": true, "Div:1:lazyT": true, "Div:1:column": true,
 	"Concat:0:gaps": true, "Concat:1:gaps": true, "Concat:2:gaps": true,
 	"ReduceMax:0:column": true, "ReduceMin:0:column": true, "Softmax:0:column": true, "LogSoftmax:0:column": true,
 	"Sub:0:gaps": true, "Add:0:gaps": true, "Add:1:gaps": true, "Sub:1:gaps": true,
